@@ -500,6 +500,11 @@ Parser::IdentifierRole Parser::guessRoleOfIdentifier(DeclarationContext declCtx)
                             ++LA;
                             continue;
                         case SyntaxKind::AsteriskToken:
+                        // The qualifiers of a pointer declarator.
+                        case SyntaxKind::Keyword_const:
+                        case SyntaxKind::Keyword_volatile:
+                        case SyntaxKind::Keyword_restrict:
+                        case SyntaxKind::Keyword__Atomic:
                             ++LA;
                             continue;
                         case SyntaxKind::SemicolonToken:
